@@ -10,6 +10,9 @@ import (
 	"path/filepath"
 	"sort"
 	"strings"
+	"time"
+
+	"github.com/go-gts/gts/seqio"
 )
 
 func init() {
@@ -94,6 +97,9 @@ type invocation struct {
 	input string   // name of the primary input
 	keyID string   // canonical rendering of the options that should select the entry
 }
+
+// every version of a secondary input file carries the same modification time
+var fixedTime = time.Unix(1600000000, 0)
 
 func runC14(o *Out) {
 	if _, err := os.Stat(gtsBin); err != nil {
@@ -310,6 +316,14 @@ func runC14(o *Out) {
 			stdin    []byte
 			stdinAlt []byte
 		}
+		// three oligomers that do occur in the record, at different places
+		oligoA, oligoB, oligoC := "acgt", "ttga", "ccgg"
+		if sc := seqio.NewAutoScanner(bytes.NewReader(gb)); sc.Scan() {
+			res := strings.ToLower(string(sc.Value().Bytes()))
+			if len(res) >= 60 {
+				oligoA, oligoB, oligoC = res[3:11], res[20:28], res[41:49]
+			}
+		}
 		tabA := []byte("     misc_feature    1..10\n                     /note=\"one\"\n")
 		tabB := []byte("     misc_feature    5..20\n                     /note=\"two\"\n")
 		secs := []sec{
@@ -318,9 +332,16 @@ func runC14(o *Out) {
 			{"infix-host-file", []string{"infix", "^", mutable}, gb, append(append([]byte(nil), gb...), gb...), []byte(">g\nacgt\n"), nil},
 			{"annotate-table-file", []string{"annotate", mutable}, tabA, tabB, gb, nil},
 			{"search-query-file", []string{"search", mutable}, []byte(">q\nacgt\n"), []byte(">q\ntttt\n"), gb, nil},
+			// contents that agree on what a shortcut key would look at (the residues,
+			// their total length, the first record) and still give different output
+			{"search-query-records", []string{"search", mutable}, []byte(">q\n" + oligoA + "\n>r\n" + oligoB + "\n"), []byte(">q\n" + oligoA + oligoB + "\n"), gb, nil},
+			{"search-query-second-record", []string{"search", mutable}, []byte(">q\n" + oligoA + "\n>r\n" + oligoB + "\n"), []byte(">q\n" + oligoA + "\n>r\n" + oligoC + "\n"), gb, nil},
+			{"insert-guest-same-residues", []string{"insert", "^", mutable}, gb, fa, gb, nil},
+			{"infix-host-same-residues", []string{"infix", "^", mutable}, gb, fa, []byte(">g\nacgt\n"), nil},
+			{"annotate-table-qualifier", []string{"annotate", mutable}, tabA, bytes.Replace(tabA, []byte("one"), []byte("eno"), 1), gb, nil},
 		}
 		var hs, cs []string
-		kid := 0
+		secKeys := map[string]int{}
 		for _, sc := range secs {
 			refs := map[string]runResult{}
 			for _, v := range []struct {
@@ -328,6 +349,7 @@ func runC14(o *Out) {
 				data []byte
 			}{{"A", sc.a}, {"B", sc.b}} {
 				ioutil.WriteFile(mutable, v.data, 0644)
+				os.Chtimes(mutable, fixedTime, fixedTime)
 				refs[v.tag] = s3.run(sc.args, sc.stdin, false, true)
 			}
 			for i, tag := range []string{"A", "A", "B", "B", "A"} {
@@ -336,20 +358,24 @@ func runC14(o *Out) {
 					data = sc.b
 				}
 				ioutil.WriteFile(mutable, data, 0644)
+				os.Chtimes(mutable, fixedTime, fixedTime)
 				got := s3.run(sc.args, sc.stdin, false, false)
 				if !sameResult(got, refs[tag]) {
 					o.Violate("secondary-input-not-keyed", fmt.Sprintf("%s step %d (%s)", sc.name, i, tag),
 						fmt.Sprintf("gts %s with contents %s after a run with other contents: exit %d vs %d, stdout sha1 %x vs %x",
 							strings.Join(sc.args, " "), tag, got.code, refs[tag].code, sha1.Sum(got.stdout), sha1.Sum(refs[tag].stdout)))
 				}
-				id := kid
-				if tag == "B" {
-					id = kid + 1
+				// one abstract key per (command line, contents): two scenarios may
+				// share a version of the file
+				kname := fmt.Sprintf("%s|%x", strings.Join(sc.args, " "), sha1.Sum(data))
+				id, seen := secKeys[kname]
+				if !seen {
+					id = len(secKeys)
+					secKeys[kname] = id
 				}
 				hs = append(hs, fmt.Sprintf("(0 %d %s 0)", id, b2s(refs[tag].code == 0)))
 				cs = append(cs, itoa(s3.entries()))
 			}
-			kid += 2
 		}
 		o.Case("secondary-history", true, "cache_hist ("+strings.Join(hs, " ")+")", "ok ("+strings.Join(cs, " ")+")")
 		// different primary inputs on stdin under one command line
